@@ -23,6 +23,13 @@ type C12Case struct {
 	// PriorCap > 0: every network instance is first asked for its depth under this cap (below the real depth, so the
 	// query gives up with the depth-exceeded error) - a read-only query that must not influence later evaluations
 	PriorCap int `json:"prior_capped_depth_query,omitempty"`
+	// Tuned: after a fast solver was derived from the network, every link weight of the network object is rewritten in
+	// place (w -> w/2 + 1/4, as weight tuning on the phenotype does); the standard solver and a fast solver derived afterwards
+	// must compute the function of the new weights
+	Tuned bool `json:"weights_rewritten_in_place,omitempty"`
+	// ExplicitBias: the standard network first receives a full-length vector that sets the bias nodes to 0.5 and is
+	// propagated; the evaluation proper then loads the inputs only (bias inputs being one again)
+	ExplicitBias bool `json:"explicit_bias_loaded_first,omitempty"`
 }
 
 func GenC12() *rapid.Generator[C12Case] {
@@ -45,6 +52,8 @@ func GenC12() *rapid.Generator[C12Case] {
 			}
 			c.Flush2 = rapid.Bool().Draw(t, "flush between")
 		}
+		c.Tuned = rapid.IntRange(0, 5).Draw(t, "tuned") == 0
+		c.ExplicitBias = rapid.IntRange(0, 3).Draw(t, "explicit bias first") == 0
 		if d, _ := c.Net.longestPathToOutputs(); d >= 2 && rapid.IntRange(0, 3).Draw(t, "prior capped query") == 0 {
 			c.PriorCap = rapid.IntRange(1, d-1).Draw(t, "prior cap")
 		}
@@ -134,6 +143,26 @@ func CheckC12(c C12Case, rec *Rec) error {
 	net, err := fresh()
 	if err != nil {
 		return fmt.Errorf("building the network failed: %v", err)
+	}
+	if c.ExplicitBias && nBias > 0 {
+		full := make([]float64, 0, nIn+nBias)
+		k := 0
+		for _, n := range c.Net.Nodes {
+			switch n.Role {
+			case roleInput:
+				full = append(full, -c.Inputs[k]+0.25)
+				k++
+			case roleBias:
+				full = append(full, 0.5)
+			}
+		}
+		if err = net.LoadSensors(full); err != nil {
+			return fmt.Errorf("Network.LoadSensors (full-length vector): %v", err)
+		}
+		if _, err = net.ForwardSteps(steps); err != nil {
+			return fmt.Errorf("Network.ForwardSteps(%d) after the full-length load: %v", steps, err)
+		}
+		rec.Class("explicit bias values loaded before the evaluation")
 	}
 	if err = net.LoadSensors(c.Inputs); err != nil {
 		return fmt.Errorf("Network.LoadSensors: %v", err)
@@ -243,6 +272,47 @@ func CheckC12(c C12Case, rec *Rec) error {
 				return fmt.Errorf("%s (second vector): %v", r.name, err)
 			}
 			if err = compareOutputs("second input vector on the same solver, "+r.name, solver.ReadOutputs(), *ref2); err != nil {
+				return err
+			}
+		}
+	}
+	if c.Tuned {
+		n3, err := fresh()
+		if err != nil {
+			return err
+		}
+		if _, err = n3.FastNetworkSolver(); err != nil {
+			return fmt.Errorf("FastNetworkSolver: %v", err)
+		}
+		tuned := c.Net
+		tuned.Links = append([]NetLink(nil), c.Net.Links...)
+		for i := range tuned.Links {
+			tuned.Links[i].W = tuned.Links[i].W/2 + 0.25
+		}
+		for _, node := range n3.AllNodes() {
+			for _, l := range node.Incoming {
+				l.ConnectionWeight = l.ConnectionWeight/2 + 0.25
+			}
+		}
+		tref, err := tuned.evalFeedForward(c.Inputs, true)
+		if err == nil && !tref.illPosed && tref.maxBound <= 1e-7 {
+			rec.Class("weights rewritten in place after a solver was derived")
+			_ = n3.LoadSensors(c.Inputs)
+			if _, err = n3.ForwardSteps(steps); err != nil {
+				return fmt.Errorf("Network.ForwardSteps(%d) after the weights were rewritten: %v", steps, err)
+			}
+			if err = compareOutputs("after the weights were rewritten in place, Network.ForwardSteps", n3.ReadOutputs(), tref); err != nil {
+				return err
+			}
+			solver, err := n3.FastNetworkSolver()
+			if err != nil {
+				return fmt.Errorf("FastNetworkSolver (second call): %v", err)
+			}
+			_ = solver.LoadSensors(c.Inputs)
+			if _, err = solver.ForwardSteps(steps); err != nil {
+				return fmt.Errorf("fast ForwardSteps(%d) after the weights were rewritten: %v", steps, err)
+			}
+			if err = compareOutputs("fast solver derived after the weights were rewritten in place, ForwardSteps", solver.ReadOutputs(), tref); err != nil {
 				return err
 			}
 		}
